@@ -465,9 +465,23 @@ def stale_check(svg, tier):
                        depth=2 if tier == "thorough" else 1)
 
 
+def refused_check(svg):
+    """a component write that is refused (not a number, nan, None) leaves the colour exactly as it was"""
+    from props import failsafe
+    sc = []
+    bads = [float("nan"), None, "0.5", "50%", [1], complex(1, 1)]
+    for src in ("#336699cc", "rgb(200, 30, 90)", "#80808080"):
+        for comp in ("opacity", "alpha", "red", "green", "blue", "hue", "saturation", "lightness", "rgb", "hexrgb"):
+            for bad in bads:
+                sc.append(dict(name="Color(%r).%s = %r" % (src, comp, bad), fresh=(lambda src=src: svg.Color(src)),
+                               attempt=(lambda c, comp=comp, bad=bad: setattr(c, comp, bad)),
+                               follow={"hexa/opacity/rgba": lambda c: [c.hexa, c.opacity, c.rgba, c.hue, str(c)]}))
+    return failsafe.Refused(svg, sc)
+
+
 def build(tier, seed, svg):
     return [Keywords(svg), ShortHex(svg), LongHex(svg, tier), RgbFunc(svg, tier), HslFunc(svg, tier), Setters(svg),
-            Packings(svg, tier), HslAccess(svg), stale_check(svg, tier)]
+            Packings(svg, tier), HslAccess(svg), stale_check(svg, tier), refused_check(svg)]
 
 
 MATCHERS = {}
